@@ -291,6 +291,10 @@ static int do_call(const char *fn, int a1, int a2, int a3, int a4)
 		xmp_inject_event(ctx, a1, &ev);
 	} else if (!strcmp(fn, "set_player")) {
 		ret = xmp_set_player(ctx, a1, a2);
+		/* environment: the rescan under the new mode found nothing playable */
+		if (a1 == XMP_PLAYER_MODE && a2 >= XMP_MODE_AUTO && a2 <= XMP_MODE_ITSMP &&
+		    cd->state >= XMP_STATE_PLAYING && ret == -XMP_ERROR_INVALID)
+			e.res = 1;
 	} else if (!strcmp(fn, "get_player")) {
 		ret = xmp_get_player(ctx, a1);
 		if (a1 == XMP_PLAYER_MIXER_TYPE && cd->state >= XMP_STATE_PLAYING)
